@@ -454,3 +454,12 @@ def a3(ctx):
 def b4(ctx):
     from .c08 import g2
     return g2(ctx)
+
+
+@rule("C04", "B5", floor=2, kind="N",
+      desc="a write is acknowledged only after it was published: _import_one returns normally only through the commit "
+           "or the 'unchanged' side of an object-id comparison (same obligations as C01/W2) - a shortcut that trusts "
+           "the working copy acknowledges a write that a crash left unpublished")
+def b5(ctx):
+    from .c01 import w2
+    return w2(ctx)
